@@ -19,6 +19,8 @@ import (
 	"sync/atomic"
 	"testing"
 	"time"
+
+	"github.com/BurntSushi/toml"
 )
 
 type c18op struct {
@@ -36,6 +38,37 @@ type c18case struct {
 	DN  string  `json:"dn"`
 	CN  int     `json:"cn"`
 	Ops []c18op `json:"ops"`
+	// Toml, when non-empty, is the text of a station configuration file: the liveness
+	// configuration is then what the TOML decoder makes of it (DL/CL/DN/CN are ignored).
+	Toml string `json:"toml"`
+}
+
+// The shapes of lib.RegConfig (embeds *liveness.Config) and lib.Config (embeds *RegConfig
+// next to its own keys); decoded with the library lib.ParseConfig uses.
+type C18RegConfig struct {
+	*Config
+	EnableIPv4 bool `toml:"enable_v4"`
+}
+
+type C18StationConfig struct {
+	*C18RegConfig
+	LogLevel string `toml:"log_level"`
+}
+
+func c18config(c c18case) (*Config, error) {
+	if c.Toml == "" {
+		return &Config{CacheDuration: c.DL, CacheCapacity: c.CL, CacheDurationNonLive: c.DN, CacheCapacityNonLive: c.CN}, nil
+	}
+	var sc C18StationConfig
+	if _, err := toml.Decode(c.Toml, &sc); err != nil {
+		return nil, err
+	}
+	if sc.C18RegConfig == nil {
+		sc.C18RegConfig = &C18RegConfig{}
+	}
+	// as lib.NewRegistrationManager: liveness.New(conf.LivenessConfig()) -- the promoted method of the
+	// embedded pointer as decoded (nil when no liveness key is present => defaultConfig)
+	return sc.C18RegConfig.LivenessConfig(), nil
 }
 
 type c18step struct {
@@ -144,7 +177,13 @@ func c18run(c c18case, fake bool) (r c18res) {
 			r.Panic = fmt.Sprint(p)
 		}
 	}()
-	lt, err := New(&Config{CacheDuration: c.DL, CacheCapacity: c.CL, CacheDurationNonLive: c.DN, CacheCapacityNonLive: c.CN})
+	conf, err := c18config(c)
+	if err != nil {
+		r.InitErr = true
+		r.Panic = "toml: " + err.Error()
+		return
+	}
+	lt, err := New(conf)
 	if err != nil {
 		r.InitErr = true
 		return
